@@ -85,7 +85,8 @@ def observe(flexdir, text, noline=False, cfgargs=(), split=False, header=False):
     code of the second file has to be located by its line in that file"""
     wd = tempfile.mkdtemp(prefix="uc.", dir=os.environ.get("VERIF_SCRATCH", "/tmp"))
     src, where = layout(text, dollarbar=not any("f" in a.lower() for a in cfgargs if a.startswith("-C")))
-    lp = os.path.join(wd, "in.l"); cp = os.path.join(wd, "scan.c"); exe = os.path.join(wd, "scan")
+    # the input file's name holds a byte >= 0x80 (UTF-8 o-umlaut): a #line directive has to name the file as it is called
+    lp = os.path.join(wd, "in\u00f6.l"); cp = os.path.join(wd, "scan.c"); exe = os.path.join(wd, "scan")
     inputs = [lp]
     if split:
         ls = src.splitlines(True)
@@ -108,12 +109,18 @@ def observe(flexdir, text, noline=False, cfgargs=(), split=False, header=False):
         q = subprocess.run(["gcc", "-w", "-o", exe, cp] + (["-DVF_HDR", "-I", wd, hc] if header else []), stdout=subprocess.PIPE, stderr=subprocess.STDOUT, text=True, errors="replace")
         ccrc = q.returncode
         if ccrc != 0: note = q.stdout[:400]
-        c = open(cp, errors="replace").read().splitlines()
+        c = open(cp, encoding="latin-1").read().splitlines()
+        names = {os.fsencode(x).decode("latin-1") for x in inputs}
+        def unesc(t):     # the C string literal of a #line directive: \\ \" and octal escapes
+            return re.sub(r'\\([0-7]{1,3}|.)', lambda m: chr(int(m.group(1), 8) & 0xff) if m.group(1)[0] in "01234567" else m.group(1), t)
         for k, line in enumerate(c, 1):
-            m = re.match(r'#line (\d+) "([^"]*)"', line)
+            m = re.match(r'#line (\d+) "((?:[^"\\]|\\.)*)"', line)
             if m:
                 nd += 1
-                if os.path.basename(m.group(2)) == "scan.c" and int(m.group(1)) != k + 1: bad += 1
+                if os.path.basename(m.group(2)) == "scan.c":
+                    if int(m.group(1)) != k + 1: bad += 1
+                elif unesc(m.group(2)) not in names:
+                    bad += 1; note = "#line names a file that is not an input file: " + line[:200]
         if ccrc == 0:
             r = subprocess.run([exe], stdout=subprocess.PIPE, stderr=subprocess.PIPE, timeout=20)
             for l in r.stdout.decode("latin-1").splitlines():
